@@ -53,11 +53,15 @@ impl Case {
 }
 
 pub fn tier_config(sel: usize, exclude: &Exclusions) -> (&'static str, GenConfig) {
-    let (name, mut cfg) = match sel % 4 {
+    let (name, mut cfg) = match sel % 5 {
         0 => ("core", GenConfig::core()),
         1 => ("client-graph", GenConfig::client_graph()),
         2 => ("advanced", GenConfig::advanced()),
-        _ => ("everything", GenConfig::everything()),
+        3 => ("everything", GenConfig::everything()),
+        // shapes that crash the compiler at the pinned commit (recorded findings); only checks that
+        // ask for tier 4 get them
+        _ if exclude.allow_risky => ("risky", GenConfig::everything().risky()),
+        _ => ("advanced", GenConfig::advanced()),
     };
     exclude.apply(&mut cfg);
     (name, cfg)
@@ -71,6 +75,8 @@ pub struct Exclusions {
     pub no_odd_strings: bool,
     pub no_negative_ints: bool,
     pub no_vars_in_objects: bool,
+    /// C08 only: also generate the shapes behind recorded crash findings
+    pub allow_risky: bool,
 }
 
 impl Exclusions {
@@ -194,7 +200,7 @@ pub fn raw_case(spec: &CaseSpec, exclude: &Exclusions) -> Case {
 
 /// Client fields that (transitively) select themselves.
 pub fn cyclic_case(spec: &CaseSpec, exclude: &Exclusions) -> Option<Case> {
-    let (tier, cfg) = tier_config(1 + (spec.variant as usize % 2), exclude);
+    let (tier, cfg) = tier_config(if exclude.allow_risky && spec.variant % 3 == 0 { 4 } else { 1 + (spec.variant as usize % 2) }, exclude);
     let mut project = build_project(spec.tape.clone(), &cfg);
     let mut t = Tape::new(spec.mtape.clone());
     let fields: Vec<usize> = project.decls.iter().enumerate().filter(|(_, d)| !d.is_pointer()).map(|(i, _)| i).collect();
@@ -204,6 +210,7 @@ pub fn cyclic_case(spec: &CaseSpec, exclude: &Exclusions) -> Option<Case> {
     let a = fields[t.choose(fields.len())];
     let same_parent: Vec<usize> = fields.iter().copied().filter(|&j| project.decls[j].parent == project.decls[a].parent).collect();
     let b = same_parent[t.choose(same_parent.len())];
+    let loadable = tier == "risky" && t.chance(1, 3);
     let mk = |p: &Project, j: usize, alias: &str| Sel {
         alias: Some(alias.to_string()),
         name: p.decls[j].name.clone(),
@@ -213,7 +220,7 @@ pub fn cyclic_case(spec: &CaseSpec, exclude: &Exclusions) -> Option<Case> {
             .filter(|v| v.ty.is_non_null() && v.default.is_none())
             .map(|v| (v.name.clone(), crate::Val::Null))
             .collect(),
-        directive: SelDirective::None,
+        directive: if loadable { SelDirective::Loadable { lazy_load_artifact: false } } else { SelDirective::None },
         children: None,
         target: Target::ClientField(j),
     };
@@ -229,7 +236,11 @@ pub fn cyclic_case(spec: &CaseSpec, exclude: &Exclusions) -> Option<Case> {
         project.decls[b].selections.push(sa);
     }
     let rendered = render(&project);
-    let note = if a == b { "a client field selects itself".to_string() } else { "two client fields select each other".to_string() };
+    let note = format!(
+        "{}{}",
+        if a == b { "a client field selects itself" } else { "two client fields select each other" },
+        if loadable { " @loadable" } else { "" }
+    );
     Some(Case { kind: Kind::Cyclic, tier, project, rendered, mutation: None, note })
 }
 
